@@ -45,7 +45,7 @@ class ThrottleCall(Contract):
         if fv.qualname == "mimic_function":
             def spec(it2, fv2, cargs, node):
                 lib.used("callee:mimic_function(C18-P4)")
-                return cargs.kw.get("within", V.VNone)
+                return cargs.arg(1, "within", V.VNone)
             return spec
         return None
 
@@ -314,8 +314,9 @@ class ThrottleFactory(Contract):
         ok = len(self.made) == 1
         st.check("P5:one-throttle-object-with-the-configured-limit-and-period",
                  z3.BoolVal(ok) if not ok else
-                 z3.And(z3.BoolVal(len(self.made[0].pos) == 1) if len(self.made[0].pos) != 1 else self.made[0].pos[0] == self.fn,
-                        self.made[0].kw.get("limit") == self.limit, self.made[0].kw.get("period") == self.period))
+                 (lambda a: z3.BoolVal(False) if (a["function"] is None or a["limit"] is None or a["period"] is None or a["$extra"])
+                  else z3.And(a["function"] == self.fn, a["limit"] == self.limit, a["period"] == self.period))(
+                     named_args(self.made[0], "function", "limit", "period")))
 
     def on_raise(self, it, exc):
         it.st.check("P5:building-the-throttle-never-raises", z3.BoolVal(False))
